@@ -20,6 +20,7 @@ from .c03 import sym_key, flip, KEY, WRONG_KEY, KID, SRC, NODE, SEC_REASONS
 PROP = 'C16'
 ENV_LIMITED = ('enc-kw',)
 LENGTHS = (0, 1, 15, 16, 17, 255, 256)
+CREATION = (760000000000, 3)
 
 
 def plaintext(length):
@@ -28,7 +29,7 @@ def plaintext(length):
 
 def plain_bundle(length, with_ext):
     pri = dict(flags=B.FLAG_REQ_DELETION | B.FLAG_REQ_DELIVERY, crc_type=0, dest='dtn://node/app', src=SRC + 'app',
-               report_to='dtn://rpt/', ts=(760000000000, 3), lifetime=86400000)
+               report_to='dtn://rpt/', ts=CREATION, lifetime=86400000)
     blocks = []
     if with_ext:
         blocks.append(dict(type=195, num=2, flags=0, crc_type=0, data=b'secret-extension-data'))
@@ -549,8 +550,69 @@ def run_admin_target(params, known):
                 violations=violations[:3], known=[], samples=[], verdicts={}, report_keys=['verdicts'])
 
 
+def run_key_history(params, known):
+    '''One long-lived receiver; before each of three receptions its key under the key identifier is the
+    right one, another one, or absent (27 histories).  Each reception is judged on its own: the plaintext
+    is handed over exactly when the receiver holds the right key at that moment, whatever it held (and
+    successfully used) before.'''
+    import itertools
+    from .. import env as _env
+    _env.load_bp()
+    global CREATION
+    violations = []
+    kinds = set()
+    keys = []
+    count = 0
+    bundles = []
+    try:
+        for seq in (21, 22, 23):
+            CREATION = (760000000000, seq)
+            bundles.append(source_encrypt('enc0', 16, False))
+    finally:
+        CREATION = (760000000000, 3)
+    states = ('right', 'wrong', 'absent')
+    for hist in itertools.product(states, repeat=3):
+        count += 1
+        case = dict(key_before_each_reception=list(hist))
+        world = BpWorld(dict(node_id=NODE, rx_routes=[('^dtn://node/.*', 'deliver')], tx_routes=[('.*', 'dtn://next/', None)],
+                             accept_after_verify=True))
+        cose = world.cose()
+        want = []
+        for (k, state) in enumerate(hist):
+            if state == 'absent':
+                cose.sym_key_store.pop(KID, None)
+            else:
+                cose.sym_key_store[KID] = sym_key(KEY if state == 'right' else WRONG_KEY, ['EncryptOp', 'DecryptOp'], 'A256GCM')
+            if state == 'right':
+                want.append(21 + k)
+            world.receive(bundles[k])
+            world.quiesce()
+        keys.append('/'.join(hist))
+        got = sorted(d['ts'][1] for d in world.probe.seen)
+        found = None
+        if world.escaped:
+            found = ('exception-escaped-idle-callback', '%s: %s' % (world.escaped[-1][0], world.escaped[-1][2]))
+        elif [s2 for s2 in got if s2 not in want]:
+            found = ('decrypted-without-the-right-key', 'delivered %r, right key held for %r' % (got, want))
+        elif got != want:
+            found = ('not-decrypted-with-the-right-key', 'delivered %r, right key held for %r' % (got, want))
+        else:
+            for d in world.probe.seen:
+                data = [bytes.fromhex(b[2]) for b in d['blocks'] if b[0] == 1]
+                if data != [plaintext(16)]:
+                    found = ('recovered-plaintext-differs', repr(data))
+        if found and found[0] not in kinds:
+            kinds.add(found[0])
+            v = Violation(PROP, 'confidentiality', found[0], dict(), '%r: %s' % (case, found[1])).as_dict()
+            v['case'] = dict(kind='key-history', **case)
+            violations.append(v)
+    return dict(name=params['name'], evaluations=count, nontrivial_keys=keys, violations=violations, known=[], samples=[],
+                verdicts={}, report_keys=['verdicts'])
+
+
 def scenarios(tier):
     out = []
+    out.append(dict(name='key-history', kind='enum', runner='run_key_history', params=dict(name='key-history'), weight=5))
     out.append(dict(name='admin-record-target', kind='enum', runner='run_admin_target', params=dict(name='admin-record-target'), weight=5))
     out.append(dict(name='bib-and-bcb', kind='enum', runner='run_bib_and_bcb', params=dict(name='bib-and-bcb'), weight=5))
     out.append(dict(name='fragmented', kind='enum', runner='run_fragmented', params=dict(name='fragmented'), weight=5))
@@ -595,6 +657,12 @@ def evidence(tier, seed, scens, results, wall_s):
 
 def replay_case(body, verbose=False):
     case = body['case']
+    if case.get('kind') == 'key-history':
+        res = run_key_history(dict(name='key-history'), None)
+        for v in res['violations']:
+            print('%s: %s' % (v['kind'], v['detail'][:400]))
+        print('%d histories, %d kinds of violation' % (res['evaluations'], len(res['violations'])))
+        return 1 if res['violations'] else 0
     print('case %r: %s' % ({k: case[k] for k in ('kind', 'length', 'with_ext', 'alteration')}, body['violation']['kind']))
     if case.get('altered'):
         (world, delivered, reasons) = receive(bytes.fromhex(case['altered']), 'right-kw' if case['kind'] == 'enc-kw' else 'right', True)
